@@ -17,7 +17,7 @@ PROP = 'C03'
 LEVEL = 'exploration'
 SHARDS = {'thorough': 8}
 
-FIELDS = ['path', 'interface', 'member', 'error_name', 'reply_serial', 'destination', 'sender', 'signature', 'unix_fds']
+from harness.msgview import FIELDS, tx_view, same_field, compare_view  # noqa: E402
 _serials = set()
 _serial_list = []
 
@@ -26,47 +26,6 @@ IFACES = ['a.b', 'org.verif.Iface', 'A_1._b.C9', 'a.' + 'b' * 253]
 MEMBERS = ['M', 'method_1', 'X' * 255, '_']
 BUSNAMES = [':1.5', 'org.verif.Svc', 'a-b.c-d', ':9.9.9', 'a.b']
 ERRNAMES = ['org.verif.Error.Failed', 'a.b']
-
-
-def tx_view(m):
-    """What a parsed/constructed txdbus message object says about itself."""
-    v = {'type': getattr(m, '_messageType', None), 'serial': getattr(m, 'serial', None),
-         'expectReply': getattr(m, 'expectReply', None), 'autoStart': getattr(m, 'autoStart', None)}
-    for f in FIELDS:
-        v[f] = getattr(m, f, None)
-    v['body'] = getattr(m, 'body', None)
-    return v
-
-
-def same_field(name, got, want):
-    if name == 'signature':
-        return (got or '') == (want or '')
-    if want is None:
-        return got is None
-    return got == want and (not isinstance(want, str) or isinstance(got, str))
-
-
-def compare_view(view, exp, body_expect):
-    """List of differences between a txdbus view and the expected message content."""
-    diffs = []
-    for k in ('type', 'serial', 'expectReply', 'autoStart'):
-        if k in exp and view[k] != exp[k]:
-            diffs.append((k, view[k], exp[k]))
-    for f in FIELDS:
-        if f == 'unix_fds' and not exp.get(f):
-            if view[f] not in (None, 0):
-                diffs.append((f, view[f], None))
-            continue
-        if not same_field(f, view[f], exp.get(f)):
-            diffs.append((f, view[f], exp.get(f)))
-    got_body = view['body']
-    if body_expect:
-        if got_body is None or not R.plain_eq(list(got_body), body_expect):
-            diffs.append(('body', repr(got_body)[:200], repr(body_expect)[:200]))
-    else:
-        if got_body:
-            diffs.append(('body', repr(got_body)[:200], None))
-    return diffs
 
 
 def gen_body(r, allow_h, big=False):
@@ -209,11 +168,11 @@ def classify_diffs(diffs):
 
 # ------------------------------------------------------------------ foreign messages
 
-def foreign_case(seed, idx):
-    r = random.Random('%s/c03foreign/%s' % (seed, idx))
+def foreign_case(seed, idx, allow_h=True, stream='c03foreign', max_depth=None):
+    r = random.Random('%s/%s/%s' % (seed, stream, idx))
     mtype = idx % 4 + 1
     little = (idx // 4) % 2 == 0
-    g = gen.Gen(r, max_depth=r.choice([1, 2, 3]), free_variants=True)
+    g = gen.Gen(r, max_depth=max_depth or r.choice([1, 2, 3]), free_variants=True, allow_h=allow_h)
     fields = {}
     if mtype in (1, 4):
         fields['path'] = r.choice(PATHS)
